@@ -81,6 +81,10 @@ class FakePool:
         self.n += 1
         self.futs.append(f)
         self.ctl.scheduled.append((self.rid, self.n))
+        if self.ctl.sched is None and self.ctl.p_eager and self.ctl.rng.random() < self.ctl.p_eager:
+            # the worker is already through with this candidate (transform and test) when the parent executes its next
+            # statement: a legitimate interleaving of the real pool; the parent still only *sees* it at its next scan
+            f._complete()
         return f
 
     def stop(self):
@@ -103,7 +107,8 @@ class FakePool:
 class Control:
     """script + record of one run"""
 
-    def __init__(self, sched=None, faults=None, rng=None, p_done=0.5, wait_policy='first'):
+    def __init__(self, sched=None, faults=None, rng=None, p_done=0.5, wait_policy='first', p_eager=0.0):
+        self.p_eager = p_eager      # probability that a candidate has run to its end before `schedule` returns (random mode only)
         self.sched = sched          # {(rid, t): [idx]} or None -> random with p_done
         self.faults = faults or {}  # {(rid, order): kind}
         self.rng = rng
